@@ -123,6 +123,20 @@ func checkPrefixes(b *B, w wrapper, field []byte) {
 				b.Violate("", fmt.Sprintf("%s: route %d differs from the encoded one", w.name, i), wit())
 				return
 			}
+			// octets that were never encoded cannot carry anything: the address is zero beyond
+			// the ceil(bits/8) octets on the wire (trailing bits inside the last encoded octet may be
+			// kept verbatim or masked)
+			as := addr.AsSlice()
+			for k := len(r.Addr); k < len(as); k++ {
+				if as[k] != 0 {
+					b.Violate("", fmt.Sprintf("%s: route %d (/%d, %d octets encoded) has non-zero address octet %d (%#02x) that was never on the wire: an invented address", w.name, i, r.Bits, len(r.Addr), k, as[k]), wit())
+					return
+				}
+			}
+			if n := len(r.Addr); n > 0 && as[n-1] != r.Addr[n-1] && r.Bits%8 != 0 && as[n-1] != r.Addr[n-1]&^(0xff>>(r.Bits%8)) {
+				b.Violate("", fmt.Sprintf("%s: route %d: last encoded octet %#02x decoded as %#02x (neither verbatim nor masked)", w.name, i, r.Addr[n-1], as[n-1]), wit())
+				return
+			}
 		}
 	})
 	b.Sig(w.name, ok, min(len(want), 5), lenClass(len(field)))
